@@ -54,6 +54,7 @@ class Scenario:
         self.loss_offset = kw.get("loss_offset", 0)       # added to every loss value (C20 scenarios)
         self.seed = kw.get("seed", 0)
         self.tables = kw.get("tables", "random")          # "random" | "spec:scalar" | "spec:multi" (IncExplainer.tla)
+        self.companion = kw.get("companion", False)       # a second live explainer (own parts) is driven in between
 
     def to_json(self):
         d = dict(self.__dict__)
@@ -317,6 +318,12 @@ def run_scenario(sc, tape_mode="log", script=None, keep_raw=False, provider=None
     ex, rec, names = env["ex"], env["rec"], env["names"]
     conv = env["conv"]
     proj = Projection(env)
+    env2 = None
+    if sc.companion:
+        try:
+            env2 = build(sc)       # same configuration, its own model / loss / storage / imputer objects
+        except Exception:
+            env2 = None
     arrivals = {}            # id(x dict) -> arrival index (1-based)
     keep = []                # keep the dicts alive so ids stay unique
 
@@ -449,6 +456,12 @@ def run_scenario(sc, tape_mode="log", script=None, keep_raw=False, provider=None
             if keep_raw:
                 raws.append(proj.raw())
                 rows_log.append((list(rows_after) if rows_after is not None else None, ys_after))
+            if env2 is not None:
+                # objects must not share state: the companion explains other data between the calls
+                try:
+                    env2["ex"].explain_one({nm: conv(v + 7) for nm, v in zip(names, xs)}, (y + 1) % 3)
+                except Exception:
+                    pass
             if provider is not None and not provider.after_call(ci, call):
                 break
         tape_log = list(tape.log)
@@ -537,7 +550,7 @@ def random_scenario(rng, cls=None, quickness=1, **force):
         n_over = rng.choice([None, None, None, 1, 2])
         upd = rng.random() < 0.9 or i == 0
         stream.append((xs, y, n_over, upd))
-    kw = dict(cls=cls, d=d, names=names, n_inner=n_inner, dynamic=dynamic, alpha=alpha,
+    kw = dict(cls=cls, d=d, names=names, n_inner=n_inner, dynamic=dynamic, alpha=alpha, companion=rng.random() < 0.3,
               bigger=(cls == "sage" and rng.random() < 0.3), storage=storage,
               store_targets=rng.random() < 0.5, imputer=imputer, nlab=nlab, model_seed=rng.randrange(10 ** 6),
               stream=stream, seed=rng.randrange(2 ** 31))
